@@ -26,6 +26,14 @@ type structFinding struct {
 	ok   bool
 }
 
+// types of the standard library documented as safe for concurrent use whose
+// methods do not carry state from one use to the next that could show in the
+// output
+var concurrencySafeTypes = map[string]bool{
+	"regexp.Regexp": true,
+	"log.Logger":    true,
+}
+
 func rootGlobal(v ssa.Value) *ssa.Global {
 	for {
 		switch x := v.(type) {
@@ -88,11 +96,25 @@ func (p *Prog) globalStateScan(pkgSuffixes []string) []structFinding {
 					c := x.Common()
 					args := append([]ssa.Value{}, c.Args...)
 					for _, a := range args {
-						if _, isPtr := a.Type().Underlying().(*types.Pointer); !isPtr {
+						pt, isPtr := a.Type().Underlying().(*types.Pointer)
+						if !isPtr {
 							continue
 						}
 						if g := rootGlobal(a); g != nil {
 							bad[g.Name()] = "hands the address of package-level variable " + g.Name() + " to a callee"
+						}
+						// a pointer LOADED from a package-level variable: the object behind it is shared by
+						// every render / generation; unless its type is documented as safe for concurrent
+						// use (and stateless for our purposes), calling into it is shared mutable state
+						if ld, ok := a.(*ssa.UnOp); ok {
+							if g, ok := ld.X.(*ssa.Global); ok {
+								if nt, ok := pt.Elem().(*types.Named); ok && nt.Obj().Pkg() != nil && !strings.HasPrefix(nt.Obj().Pkg().Path(), repoModule) {
+									full := nt.Obj().Pkg().Path() + "." + nt.Obj().Name()
+									if !concurrencySafeTypes[full] {
+										bad[g.Name()] = "calls into the shared *" + full + " held in package-level variable " + g.Name() + " (a type not known to be safe for concurrent use)"
+									}
+								}
+							}
 						}
 					}
 				}
